@@ -13,10 +13,11 @@ from measured import Number, One, Unit
 
 from .common import BaseContext
 
-LEVEL_TEXT = "For every finite history of public operations (unit arithmetic, roots, as_ratio and the renderings that call it, quantify, prefix application, symbol resolution, define/derive/alias) the Lean model's intern table satisfies: each unit's dimension equals the product of its factors' dimensions (run_inv, by induction over the op list, no bound on length); the dimension of a unit expression is its homomorphic image regardless of history (dimension_history_independent). The hypotheses are discharged for the state the shipped modules register at import (init_ginv, decide +kernel over data regenerated from /repo on every run). The model is tied to the code by differential execution of generated histories, comparing object identity by creation ordinal, plus the property's own oracle on every interned unit of the real library."
+LEVEL_TEXT = "For every finite history of public operations (unit arithmetic, roots, as_ratio and the renderings that call it, quantify, prefix application, symbol resolution, define/derive/alias) the Lean model's intern table satisfies: each unit's dimension equals the product of its factors' dimensions (run_inv, by induction over the op list, no bound on length); the dimension of a unit expression is its homomorphic image regardless of history (dimension_history_independent). HISTORIES WITH QUERIES TOO: conversions, comparisons and arithmetic on quantities intern units (unprefixed forms, roots and powers for the path search, products for the factor planner); for every history of them and of unit operations, each asked about units that exist, each ending however it ends - value or exception, through any branch of the factor planner - the table stays canonical and consistent (queries_good, good_convert, Proofs/Kept.lean: a structural walk over the model's planner; the unit operations it uses are harmless on ids that do not exist, the two that are not are only applied to the query's arguments and to results). The hypotheses are discharged for the state the shipped modules register at import (init_ginv, decide +kernel over data regenerated from /repo on every run). The model is tied to the code by differential execution of generated histories, comparing object identity by creation ordinal, plus the property's own oracle on every interned unit of the real library."
 LEVEL_NOTE = 'Trusted: Lean kernel; translator gen_init.py; correspondence harness. Modelled not verified: lru_cache transparency (justified by idempotence of interning), dict insertion order, conversion planner (corresponds on generated cases). Hand-crafted pickle/JSON payloads with a lying dimension field are outside the quantifier.'
 TECHNIQUE = 'Lean 4 invariant proof by induction over operation histories + regenerated initial state (decide +kernel) + differential correspondence'
 
+LEAN_TARGETS = ["Props.C01", "Obligations.C01", "Props.Planner", "Obligations.History"]
 THEOREMS = [
     "Measured.C01.step_preserves_inv",
     "Measured.C01.run_inv",
@@ -24,6 +25,7 @@ THEOREMS = [
     "Measured.C01.eval_dimension",
     "Measured.Obligations.init_ginv",
     "Measured.Obligations.shipped_histories_inv",
+    "Measured.queries_good", "Measured.good_convert", "Measured.C01.invariants_survive_every_query_history", "Measured.Obligations.History.shippedState_after", "Measured.Obligations.History.sample_history_state",
 ]
 QUICK = {"chunks": 4, "ops": 800}
 THOROUGH = {"chunks": 16, "ops": 6000}
